@@ -38,7 +38,7 @@ def t3(rep, tier, seed):
 def run(rep, tier, seed):
     rep.level = "exploration"
     rep.assume("A1", "A2", "A5", "A6", "A8")
-    D.run_contracts(rep, "C20", O.VALUE_CONTRACTS, tier)
+    D.run_contracts(rep, "C20", O.VALUE_CONTRACTS + O.VALUE_T1_CONTRACTS, tier)
     D.run_static(rep, "C20", ("purity",))      # every per-call contract presupposes that results are functions of the arguments
     t3(rep, tier, seed)
     D.link_falsifier(rep)
